@@ -68,11 +68,11 @@ uint32_t VFN(fseek)(VF* f, uint64_t off, uint32_t whence) { struct vf_handle* h 
   if (whence == 0) h->pos = (uint64_t)o; else if (whence == 1) h->pos = (uint64_t)((int64_t)h->pos + o); else h->pos = (uint64_t)((int64_t)vf_files[h->file].len + o);
   h->eof = 0; return 0; }
 uint32_t VFN(fileno)(VF* f) { struct vf_handle* h = vf_get(f); return (uint32_t)(3 + (h - vf_h)); }
-int64_t VFN(pread)(uint32_t fd, uint8_t* dst, uint64_t n, uint64_t off) {
-  int i = (int)fd - 3; if (i < 0 || i >= VF_NH || !vf_h[i].open) { vf_bad_use = 1; return -1; }
+uint64_t VFN(pread)(uint32_t fd, uint8_t* dst, uint64_t n, uint64_t off) {
+  int i = (int)fd - 3; if (i < 0 || i >= VF_NH || !vf_h[i].open) { vf_bad_use = 1; return (uint64_t)-1; }
   struct vf_file* F = &vf_files[vf_h[i].file]; uint64_t avail = off < F->len ? F->len - off : 0, got = n < avail ? n : avail;
   for (uint64_t k = 0; k < got; k++) dst[k] = F->data[off + k];
-  return (int64_t)got; }
+  return got; }
 #ifndef REAL
 /* logging is not the subject: empty bodies */
 uint32_t vf_fputs(uint8_t* s, VF* f) { return 0; }
